@@ -35,7 +35,9 @@ def roundtrip(bounds, blocked, api):
         m = M().mciipm
         ns = [sym_int('len%d' % i, 1, b) for i, b in enumerate(bounds)]
         recs = [Source('rec%d' % i, 'b', n).rope() for i, n in enumerate(ns)]
-        rp = {'kind': 'roundtrip', 'args': {'lengths': [ev(n) for n in ns], 'blocked': blocked, 'api': api}}
+        def rp():
+            return {'kind': 'roundtrip', 'args': {'lengths': [ev(n) for n in ns], 'blocked': blocked, 'api': api,
+                                                 'records': [concretize(r, ev) for r in recs]}}
         if api == 'class':
             f = RopeFile()
             w = m.VbsWriter(f, blocked=blocked)
@@ -68,7 +70,7 @@ def roundtrip(bounds, blocked, api):
         require(len(got) == len(recs), 'read %d records, wrote %d' % (len(got), len(recs)), key='C03/count', replay=rp)
         for i, (a, b) in enumerate(zip(got, recs)):
             req_eq(a, b, 'record %d differs' % (i + 1), key='C03/content', replay=rp)
-        return {'sample': {'lengths': [ev(n) for n in ns], 'blocked': blocked, 'api': api, 'file_size': ev(rlen(data))}, 'replay': rp}
+        return {'sample': {'lengths': [ev(n) for n in ns], 'blocked': blocked, 'api': api, 'file_size': ev(rlen(data))}, 'replay': rp()}
     return h
 
 
